@@ -5,6 +5,7 @@
 package servlab
 
 import (
+	"context"
 	"errors"
 	"net/http"
 	"net/url"
@@ -77,6 +78,9 @@ type Package struct {
 	HasSecurityHandler bool
 	HasSecuritySource  bool
 	HasNewError        bool
+	// WithServerURL applies the generated per-call server URL override (nil when the package has none): it
+	// returns the context to use and, for the request-option flavour, the option to append to the call
+	WithServerURL func(ctx context.Context, u *url.URL) (context.Context, any)
 
 	once   sync.Once
 	byName map[string]reflect.Type
